@@ -62,7 +62,7 @@ def run(pid, tier, seed, replay=None):
 
   # ---- T1
   if prop.uses_t1:
-    t1 = translate.regenerate(C.REPO)
+    t1 = translate.regenerate_all(C.REPO)
     info.update({'t1_units': t1['t1_units'], 't1_fallback_units': t1['t1_fallback_units']})
     for u in t1['t1_fallback_units']:
       red.append(('t1-untranslatable', u, 'source unit is outside the translatable subset'))
@@ -246,7 +246,12 @@ def main():
   a = ap.parse_args()
   seed = int(os.environ.get('VERIF_SEED', '0'))
   try:
-    rc = run(a.pid.upper(), a.tier, seed, a.replay)
+    try:
+      rc = run(a.pid.upper(), a.tier, seed, a.replay)
+    finally:
+      # a run against a scratch copy (DK_REPO) must not leave generated Lean files describing that copy
+      if os.path.realpath(C.REPO) != os.path.realpath('/repo') and os.path.isdir('/repo/device_kit'):
+        translate.regenerate_all('/repo')
   except AssertionError as e:
     print('TOOL FAILURE: ' + str(e)); rc = 2
   except Exception:
